@@ -51,6 +51,26 @@ type C15Case struct {
 	Texts []TextSrc  `json:"texts,omitempty"`
 	Calls []Call     `json:"calls"`
 	Order MapOrder   `json:"map_order"`
+	// Reorder, when non-zero, asks for a second pass: the same calls on fresh
+	// copies of the same values in another order (1 = reversed, otherwise a
+	// permutation derived from the number). "In any order" is part of C15.
+	Reorder uint64 `json:"reorder,omitempty"`
+	// WarmUp lists histories the process lived through before this one. Only
+	// the comparison of a cold process with a warm one uses it.
+	WarmUp []C15Case `json:"warm_up,omitempty"`
+}
+
+// usesDiff reports whether a call reads one of the shared diffs.
+func usesDiff(op string) bool {
+	return strings.Contains(op, "Render")
+}
+
+func orderKey(call Call) string {
+	d := call.D
+	if !usesDiff(call.Op) {
+		d = -1
+	}
+	return fmt.Sprintf("%s|%d|%d|%d|%d|%d", call.Op, d, call.N, call.O, call.T, call.E)
 }
 
 func mkOptions(names []string) []jd.Option {
@@ -344,7 +364,21 @@ func (w *world) operandPrint() string {
 func checkC15(c C15Case) (*Violation, []string, *caseInfo) {
 	info := &caseInfo{}
 	uninstallOrder()
-	simos.ResetGlobals() // a history is one process lifetime: start it with fresh package state
+	if len(c.WarmUp) > 0 {
+		// what this process did before: other histories, results discarded
+		saved := trace15
+		trace15 = nil
+		for _, wc := range c.WarmUp {
+			wc.WarmUp = nil
+			func() {
+				defer func() { recover() }()
+				checkC15(wc)
+			}()
+		}
+		trace15 = saved
+	} else {
+		simos.ResetGlobals() // a history is one process lifetime: start it with fresh package state
+	}
 	a, errA := readDoc(c.A, c.YAML)
 	b, errB := readDoc(c.B, c.YAML)
 	// reading a document is itself a call whose result must not depend on map
@@ -381,6 +415,8 @@ func checkC15(c C15Case) (*Violation, []string, *caseInfo) {
 		return nil, nil, info
 	}
 	w := &world{c: c, memo: map[string]string{}}
+	firstByOrderKey := map[string]string{}
+	nInit := len(c.Opts) + len(c.Texts)
 	sentinels := []jd.Option{jd.COLOR, jd.SET, jd.MULTISET, jd.Precision(7)}
 	for _, o := range c.Opts {
 		w.sharedOpts = append(w.sharedOpts, append(mkOptions(o), sentinels...))
@@ -549,12 +585,70 @@ func checkC15(c C15Case) (*Violation, []string, *caseInfo) {
 		} else if !seen {
 			w.memo[sigKey] = got.String()
 		}
+		if !usesDiff(call.Op) || call.D < nInit {
+			if _, seen := firstByOrderKey[orderKey(call)]; !seen {
+				firstByOrderKey[orderKey(call)] = got.String()
+			}
+		}
 		if v := w.checkUnchanged(fmt.Sprintf("call %d %s", i, call.Op)); v != nil {
 			v.Detail += " History so far: " + strings.Join(ops, " · ")
 			return v, w.log, info
 		}
 		if produced != nil && len(w.diffs) < 12 {
 			w.addDiff(fmt.Sprintf("P[%d:%s]", i, call.Op), produced, refProduced)
+		}
+	}
+	// "in any order": the same calls, on fresh copies of the same values, in a
+	// fresh process state and another order, return what they returned above.
+	// The initial diffs are reflection copies of the pristine twins, so this
+	// pass begins without having called Diff at all.
+	if c.Reorder != 0 && len(c.Calls) > 1 {
+		stats.probe("history-re-executed-in-another-order")
+		simos.ResetGlobals()
+		ra, errRA := readDoc(c.A, c.YAML)
+		rb, errRB := readDoc(c.B, c.YAML)
+		if errRA == nil && errRB == nil && ra != nil && rb != nil {
+			rdiffs := make([]jd.Diff, nInit)
+			for j := 0; j < nInit; j++ {
+				rdiffs[j] = deepCopyAny(w.diffs[j].pristine).(jd.Diff)
+			}
+			idx := make([]int, len(c.Calls))
+			for i := range idx {
+				idx[i] = len(idx) - 1 - i
+			}
+			if c.Reorder != 1 {
+				r := c.Reorder
+				for i := len(idx) - 1; i > 0; i-- {
+					r = mix(r, uint64(i))
+					j := int(r % uint64(i+1))
+					idx[i], idx[j] = idx[j], idx[i]
+				}
+			}
+			var rops []string
+			for _, i := range idx {
+				call := c.Calls[i]
+				first, ok := firstByOrderKey[orderKey(call)]
+				if !ok {
+					continue
+				}
+				rops = append(rops, call.Op)
+				got, _ := execCall(call, c, ra, rb, rdiffs, nil)
+				if got.String() != first {
+					// representation-only differences are tolerated as above
+					same := false
+					if got.val != nil && got.pan == "" && !got.err {
+						fresh, _ := execCall(call, c, deepCopyAny(w.nodes[0].pristine).(jd.JsonNode), deepCopyAny(w.nodes[1].pristine).(jd.JsonNode), rdiffs, nil)
+						same = fresh.val != nil && observe(fresh.val) == observe(got.val) && fresh.String() == first
+					}
+					if !same {
+						where := call.Op
+						if call.Op == "Read" && call.T < len(c.Texts) {
+							where = "Read:" + c.Texts[call.T].Kind
+						}
+						return viol15("same-output-any-order", where, "%s returned %s when the history ran as %s, and %s when the same calls ran on fresh copies of the same values in the order %s", call.Op, showStr(first), strings.Join(ops, " · "), showStr(got.String()), strings.Join(rops, " · ")), w.log, info
+					}
+				}
+			}
 		}
 	}
 	// invariant 3: every shared diff still patches like its never-used twin
@@ -836,6 +930,12 @@ func genCase15(c *Chooser) C15Case {
 		cs.Calls = append(cs.Calls, call)
 	}
 	cs.Order = MapOrder{Mode: []string{"canonical", "reverse", "rotate", "shuffle", "mixed", "shuffle"}[c.Int(6)], Seed: c.U64()}
+	switch c.Int(4) {
+	case 0:
+		cs.Reorder = 1
+	case 1:
+		cs.Reorder = c.U64() | 2
+	}
 	return cs
 }
 
@@ -922,6 +1022,16 @@ func shrink15(raw json.RawMessage) []json.RawMessage {
 		d := cp()
 		d.Calls = append(d.Calls[:i:i], d.Calls[i+1:]...)
 		add(d)
+	}
+	if c.Reorder != 0 {
+		d := cp()
+		d.Reorder = 0
+		add(d)
+		if c.Reorder != 1 {
+			d = cp()
+			d.Reorder = 1
+			add(d)
+		}
 	}
 	// simpler map order
 	if c.Order.Mode != "canonical" {
